@@ -10,8 +10,10 @@ import (
 	"math/rand"
 	"path"
 	"sort"
+	"strconv"
 	"strings"
 	"testing"
+	"time"
 
 	"github.com/pgavlin/dawn/internal/project"
 	"github.com/pgavlin/mvs"
@@ -109,6 +111,204 @@ func c11GenQuery(rng *rand.Rand, u *vuUniverse) string {
 	}
 }
 
+// --- selections that are not tags ---------------------------------------------------------------------------
+//
+// A project can be selected at a version that is no tag of the repository: the pseudo-version of an untagged
+// commit (written by an earlier `get p@branch`, or required by a dependency).  Such a selection is typically
+// AHEAD of every tag of its major.minor series, which is the state in which the queries that are defined
+// relative to the current selection (patch, upgrade) and the comparison "current vs resolved" in get have to
+// get the direction right.  The family below puts such selections into root requirement sets, into the
+// requirement lists of the universe and behind directed get sequences.
+
+// c11TagsOf: the tags of one project path (major suffix included).
+func (u *vuUniverse) c11TagsOf(p string) []vuTag {
+	var out []vuTag
+	for _, t := range u.tags {
+		if vuTagPath(t.dir, t.ver) == p {
+			out = append(out, t)
+		}
+	}
+	return out
+}
+
+// c11Pseudo draws the pseudo-version of an untagged commit of project path p: a revision (preferably one that
+// carries no tag of p) and, as base, a tag of p on an older revision (the major itself when there is none, as
+// resolveRefQuery does).  ok is false for a path that is not a project of the universe.
+func c11Pseudo(rng *rand.Rand, u *vuUniverse, p string) (string, bool) {
+	trimmed, major := project.SplitPathVersion(p)
+	if !strings.HasPrefix(trimmed, vuRepo+"/") {
+		return "", false
+	}
+	if _, ok := u.sums[strings.TrimPrefix(trimmed, vuRepo+"/")]; !ok {
+		return "", false
+	}
+	tags := u.c11TagsOf(p)
+	tagged := map[int]bool{}
+	for _, t := range tags {
+		tagged[t.rev] = true
+	}
+	var free []int
+	for r := 1; r <= u.nrevs; r++ {
+		if !tagged[r] {
+			free = append(free, r)
+		}
+	}
+	rev := 1 + rng.Intn(u.nrevs)
+	if len(free) > 0 && rng.Intn(8) != 0 {
+		rev = free[rng.Intn(len(free))]
+	}
+	base := major
+	var older []vuTag
+	for _, t := range tags {
+		if t.rev < rev {
+			older = append(older, t)
+		}
+	}
+	if len(older) > 0 {
+		base = older[rng.Intn(len(older))].ver
+	}
+	return module.PseudoVersion(major, base, time.Unix(100*int64(rev), 0), strconv.Itoa(rev)), true
+}
+
+// c11UntagUniverse rewrites some requirements of the universe's projects to pseudo-versions (a dependency that
+// requires an untagged commit of another project).
+func c11UntagUniverse(rng *rand.Rand, u *vuUniverse) int {
+	n := 0
+	done := map[*mvsProject]bool{}
+	for _, d := range u.dirs {
+		for _, s := range u.sums[d] {
+			if done[s] {
+				continue
+			}
+			done[s] = true
+			for i := range s.Requirements {
+				if rng.Intn(5) != 0 {
+					continue
+				}
+				if pv, ok := c11Pseudo(rng, u, s.Requirements[i].Path); ok {
+					s.Requirements[i].Version = pv
+					n++
+				}
+			}
+		}
+	}
+	u.build(nil)
+	return n
+}
+
+// c11UntagRoot moves one or two root requirements to a pseudo-version of their project (every name of the
+// path moves together: one version per path).
+func c11UntagRoot(rng *rand.Rand, u *vuUniverse, cfg map[string]project.RequirementConfig) {
+	names := vuSortedCfg(cfg)
+	k := 1 + rng.Intn(2)
+	for ; k > 0; k-- {
+		p := names[rng.Intn(len(names))][1]
+		pv, ok := c11Pseudo(rng, u, p)
+		if !ok {
+			continue
+		}
+		for n, r := range cfg {
+			if r.Path == p {
+				cfg[n] = project.RequirementConfig{Path: p, Version: pv}
+			}
+		}
+	}
+}
+
+// c11UntaggedPaths: the projects the build list selects at a pseudo-version (sorted).
+func c11UntaggedPaths(bl map[string]string) []string {
+	var out []string
+	for _, kv := range vuSortedMap(bl) {
+		if kv[0] != "" && module.IsPseudoVersion(kv[1]) {
+			out = append(out, kv[0])
+		}
+	}
+	return out
+}
+
+// c11GenQueryOn: a query on the given project path, weighted towards the queries whose answer depends on the
+// current selection or whose target lies on either side of it.
+func c11GenQueryOn(rng *rand.Rand, u *vuUniverse, p string) string {
+	tags := u.c11TagsOf(p)
+	if len(tags) == 0 {
+		return p + "@patch"
+	}
+	other := tags[rng.Intn(len(tags))]
+	switch r := rng.Intn(20); {
+	case r < 5:
+		return p + "@patch"
+	case r < 9:
+		return p + "@upgrade"
+	case r < 10:
+		return p
+	case r < 11:
+		return p + "@latest"
+	case r < 13:
+		return p + "@" + other.ver
+	case r < 14:
+		return p + "@" + semver.MajorMinor(other.ver)
+	case r < 15:
+		return p + "@>=" + other.ver
+	case r < 16:
+		return p + "@>" + other.ver
+	case r < 17:
+		return p + "@<=" + other.ver
+	case r < 18:
+		return p + "@<" + other.ver
+	case r < 19:
+		return p + "@main"
+	default:
+		return p + "@dev"
+	}
+}
+
+// c11RefRelative: what a patch / upgrade query has to resolve to, from the statement of the two queries and
+// the generated tag table only: the selected version, unless a tag of the project is newer (patch: within the
+// selected version's major.minor series, pre-releases count; upgrade: the newest release, the newest
+// pre-release when there is no release).  ok is false when the query is not relative to a selection (the
+// project is not selected) or when the project has no tag at all (upgrade then goes to the default branch).
+func (u *vuUniverse) c11RefRelative(bl map[string]string, vq versionQuery) (module.Version, bool) {
+	p := project.CleanPath(vq.path)
+	cur, present := bl[p]
+	if !present || p == "" || !semver.IsValid(cur) {
+		return module.Version{}, false
+	}
+	tags := u.c11TagsOf(p)
+	best := cur
+	switch vq.query {
+	case "patch":
+		for _, t := range tags {
+			if semver.MajorMinor(t.ver) == semver.MajorMinor(cur) && semver.Compare(t.ver, best) > 0 {
+				best = t.ver
+			}
+		}
+	case "upgrade":
+		if len(tags) == 0 {
+			return module.Version{}, false
+		}
+		release, pre := "", ""
+		for _, t := range tags {
+			if semver.Prerelease(t.ver) == "" {
+				if release == "" || semver.Compare(t.ver, release) > 0 {
+					release = t.ver
+				}
+			} else if pre == "" || semver.Compare(t.ver, pre) > 0 {
+				pre = t.ver
+			}
+		}
+		latest := release
+		if latest == "" {
+			latest = pre
+		}
+		if semver.Compare(latest, best) > 0 {
+			best = latest
+		}
+	default:
+		return module.Version{}, false
+	}
+	return module.Version{Path: p, Version: best}, true
+}
+
 func c11Paths(cfg map[string]project.RequirementConfig) map[string]bool {
 	out := map[string]bool{}
 	for _, v := range cfg {
@@ -184,18 +384,37 @@ func TestVerifC11(t *testing.T) {
 		out.emit(rec)
 	}
 
+	nuntag := vuEnvInt("VERIF_NSEQ_UNTAGGED", 1)
 	for ui := 0; ui < nuniv; ui++ {
 		u := vuGen(rng, ui, false)
+		// every fourth universe: some projects require an untagged commit of another project
+		if ui%4 == 3 {
+			c11UntagUniverse(rng, u)
+		}
 		out.emit(u.describe())
 		resolver := NewResolver(t.TempDir(), u.dialer, nil)
 		querier := newQuerier(resolver)
 
-		for si := 0; si < nseq; si++ {
+		for si := 0; si < nseq+nuntag; si++ {
 			cfg := vuGenRoot(rng, u, dupPaths)
+			// the last sequence(s) of every universe start from a root that requires untagged commits and aim
+			// their queries at the projects that are selected at one
+			untagged := si >= nseq
+			if untagged {
+				c11UntagRoot(rng, u, cfg)
+			}
 			nops := 1 + rng.Intn(4)
+			follow := "" // the project a ref query has just moved: the next get looks at it again
 			for oi := 0; oi < nops; oi++ {
+				bl0, ok0 := u.refBuildList(c11CfgReqs(cfg))
+
 				var op c11Op
+				ups := c11UntaggedPaths(bl0)
 				switch r := rng.Intn(10); {
+				case follow != "" && r < 5:
+					op = c11Op{Op: "get", Q: c11GenQueryOn(rng, u, follow)}
+				case untagged && len(ups) > 0 && r < 7:
+					op = c11Op{Op: "get", Q: c11GenQueryOn(rng, u, ups[rng.Intn(len(ups))])}
 				case r < 6:
 					op = c11Op{Op: "get", Q: c11GenQuery(rng, u)}
 				case r < 8:
@@ -203,10 +422,9 @@ func TestVerifC11(t *testing.T) {
 				default:
 					op = c11Op{Op: "upgradeall"}
 				}
+				follow = ""
 				caseID++
 				out.emit(map[string]any{"t": "START", "case": caseID})
-
-				bl0, ok0 := u.refBuildList(c11CfgReqs(cfg))
 
 				// what the query resolves to, from the implementation's own resolver
 				var rv module.Version
@@ -219,6 +437,11 @@ func TestVerifC11(t *testing.T) {
 					if r.st == "ok" {
 						rv, haveRv = r.val, true
 					}
+					// patch / upgrade are defined relative to the selection: the selected version unless a tag is newer
+					if want, ok := u.c11RefRelative(bl0, vq); ok && r.st != "hang" && r.st != "panic" && (r.st != "ok" || r.val != want) {
+						oracle("resolves-relative-to-selection", u, cfg, op, map[string]any{"selected": bl0[want.Path],
+							"want": want.Version, "resolved": r.val.Version, "outcome": r.st, "msg": r.msg})
+					}
 				}
 
 				res1, cfg1, msg := c11Apply(u, resolver, cfg, op)
@@ -226,6 +449,12 @@ func TestVerifC11(t *testing.T) {
 					"qp": [2]string{vq.path, vq.query}, "res": res1}
 				if haveRv {
 					rec["rv"] = [2]string{rv.Path, rv.Version}
+				}
+				if sel, ok := bl0[project.CleanPath(vq.path)]; ok && op.Op == "get" && ok0 {
+					rec["sel"] = sel // the selection the query looks at
+				}
+				if untagged {
+					rec["fam"] = "untagged"
 				}
 				out.emit(rec)
 
@@ -284,6 +513,11 @@ func TestVerifC11(t *testing.T) {
 						break
 					}
 					cur, present := bl0[rv.Path]
+					if vq.query == "patch" || vq.query == "upgrade" {
+						// an upgrade-type query by definition (the selection or something newer): whatever the
+						// resolver answered, the edit lowers nothing and keeps the project at or above its selection
+						noLower()
+					}
 					if present && semver.Compare(cur, rv.Version) > 0 {
 						// downgrade: at or below the request, absent counts as below
 						if w, ok := bl1[rv.Path]; ok && semver.Compare(w, rv.Version) > 0 {
@@ -368,6 +602,9 @@ func TestVerifC11(t *testing.T) {
 					}
 					oracle(name, u, cfg, op, map[string]any{"first": res1.Cfg, "second": res2, "msg": msg2,
 						"resolved": fmt.Sprint(rv)})
+				}
+				if op.Op == "get" && haveRv && module.IsPseudoVersion(rv.Version) {
+					follow = rv.Path
 				}
 				cfg = cfg1
 			}
